@@ -210,3 +210,25 @@ def run(ck):
                 ws.add(f.q)
         ck.ob('C23.own', 'C23.own/' + field.split('::')[-1], ws and ws <= {N + 'note_upload_start', N + 'note_upload_end', N + 'Node'}, '',
               '%s is written only by note_upload_start / note_upload_end (found: %s)' % (field.split('::')[-1], sorted(x.split('::')[-1] for x in ws)))
+
+    # ---- a refusal is always answered: every path through send_negative_ack that has a session key sends the signed negative ack ----
+    from sa.paths import Cfg as _Cfg23
+    sna = P.fn(N + 'send_negative_ack')
+    ck.touch(sna)
+    sends23 = [i for i in sna.walk() if (sna.nodes[i].get('callee') or '') in (N + 'send_secure',) or (sna.nodes[i].get('callee') or '').endswith('SessionManager::send')]
+    rets23 = [i for i in sna.walk() if sna.nodes[i]['k'] == 'ReturnStmt']
+    cfg23 = _Cfg23.of(sna)
+    early = []
+    for r_ in rets23:
+        # allowed: the early return right after `if (!key.has_value())`
+        par = sna.parent(r_)
+        while par is not None and sna.nodes[par]['k'] == 'CompoundStmt':
+            par = sna.parent(par)
+        cond_ok = False
+        if par is not None and sna.nodes[par]['k'] == 'IfStmt':
+            cond_ok = any((sna.nodes[j].get('callee') or '').endswith('::has_value') or sna.nodes[j].get('op') == '!' for j in sna.walk(sna.nodes[par]['cond'])) and \
+                any((sna.nodes[j].get('t') or '').startswith(('const std::optional<std::array', 'std::optional<std::array')) for j in sna.walk(sna.nodes[par]['cond']))
+        if not cond_ok:
+            early.append(r_)
+    ck.ob('C23.nack', 'C23.nack/always-sent', len(sends23) == 1 and not early, sna.loc(early[0]) if early else sna.loc(),
+          'send_negative_ack returns without sending only when no session key exists: every refused request is answered')
